@@ -127,7 +127,7 @@ pub enum Adv {
 #[derive(Clone, Debug)]
 pub enum Event {
     /// `advance_migration`, optionally followed by executing the returned step.
-    Step { est: Est, exec: bool, bc: Bc, prove_prefix: Option<u8>, fail_at: Option<u8> },
+    Step { est: Est, exec: bool, bc: Bc, prove_prefix: Option<u8>, fail_at: Option<u8>, supersede: bool },
     Advance { adv: Adv, scan: bool },
     Scan,
     Mine { sel: u32, scan: bool, direct: bool },
@@ -258,25 +258,25 @@ fn arb_adv() -> impl Strategy<Value = Adv> {
 
 fn arb_event() -> impl Strategy<Value = Event> {
     prop_oneof![
-        36 => (arb_est(), arb_bc(), prop_oneof![4 => Just(None), 1 => (0u8..3).prop_map(Some)], prop_oneof![24 => Just(None), 1 => (1u8..12).prop_map(Some)])
-            .prop_map(|(est, bc, prove_prefix, fail_at)| Event::Step { est, exec: true, bc, prove_prefix, fail_at }),
-        5 => (arb_est(), prop_oneof![12 => Just(None), 1 => (1u8..12).prop_map(Some)])
-            .prop_map(|(est, fail_at)| Event::Step { est, exec: false, bc: Bc::Ok, prove_prefix: None, fail_at }),
-        14 => (arb_adv(), prop::bool::weighted(0.8)).prop_map(|(adv, scan)| Event::Advance { adv, scan }),
-        3 => Just(Event::Scan),
-        12 => (any::<u32>(), prop::bool::weighted(0.8), prop::bool::weighted(0.2)).prop_map(|(sel, scan, direct)| Event::Mine { sel, scan, direct }),
-        5 => prop_oneof![3 => 0u16..4, 2 => 4u16..40, 1 => 40u16..400].prop_map(|depth| Event::Rollback { depth }),
-        4 => (any::<u32>(), prop::bool::weighted(0.8)).prop_map(|(sel, scan)| Event::ForeignSpend { sel, scan }),
-        2 => any::<u32>().prop_map(|sel| Event::AnchorInvalidate { sel }),
-        1 => any::<u32>().prop_map(|sel| Event::InputsInvalidate { sel }),
-        2 => (any::<u32>(), 1u8..30).prop_map(|(sel, dur)| Event::UnknownInputs { sel, dur }),
-        2 => any::<u32>().prop_map(|sel| Event::ApplySignature { sel }),
-        3 => (any::<u32>(), any::<bool>()).prop_map(|(sel, lock)| Event::StoreProof { sel, lock }),
-        3 => (any::<u32>(), -2i8..=8, prop::bool::weighted(0.25)).prop_map(|(sel, off, any)| Event::ReportFailure { sel, off, any }),
-        2 => any::<u32>().prop_map(|sel| Event::RecordSat { sel }),
+        108 => ((arb_est(), prop::bool::weighted(0.35)), arb_bc(), prop_oneof![4 => Just(None), 1 => (0u8..3).prop_map(Some)], prop_oneof![24 => Just(None), 1 => (1u8..12).prop_map(Some)])
+            .prop_map(|((est, supersede), bc, prove_prefix, fail_at)| Event::Step { est, exec: true, bc, prove_prefix, fail_at, supersede }),
+        15 => (arb_est(), prop_oneof![12 => Just(None), 1 => (1u8..12).prop_map(Some)])
+            .prop_map(|(est, fail_at)| Event::Step { est, exec: false, bc: Bc::Ok, prove_prefix: None, fail_at, supersede: false }),
+        42 => (arb_adv(), prop::bool::weighted(0.8)).prop_map(|(adv, scan)| Event::Advance { adv, scan }),
+        9 => Just(Event::Scan),
+        36 => (any::<u32>(), prop::bool::weighted(0.8), prop::bool::weighted(0.2)).prop_map(|(sel, scan, direct)| Event::Mine { sel, scan, direct }),
+        15 => prop_oneof![3 => 0u16..4, 2 => 4u16..40, 1 => 40u16..400].prop_map(|depth| Event::Rollback { depth }),
+        12 => (any::<u32>(), prop::bool::weighted(0.8)).prop_map(|(sel, scan)| Event::ForeignSpend { sel, scan }),
+        6 => any::<u32>().prop_map(|sel| Event::AnchorInvalidate { sel }),
+        3 => any::<u32>().prop_map(|sel| Event::InputsInvalidate { sel }),
+        6 => (any::<u32>(), 1u8..30).prop_map(|(sel, dur)| Event::UnknownInputs { sel, dur }),
+        6 => any::<u32>().prop_map(|sel| Event::ApplySignature { sel }),
+        9 => (any::<u32>(), any::<bool>()).prop_map(|(sel, lock)| Event::StoreProof { sel, lock }),
+        9 => (any::<u32>(), -2i8..=8, prop::bool::weighted(0.25)).prop_map(|(sel, off, any)| Event::ReportFailure { sel, off, any }),
+        6 => any::<u32>().prop_map(|sel| Event::RecordSat { sel }),
         1 => Just(Event::Cancel),
         1 => Just(Event::Supersede),
-        5 => Just(Event::SaveLoad),
+        15 => Just(Event::SaveLoad),
     ]
 }
 
@@ -301,9 +301,9 @@ pub fn arb_case(max_events: usize) -> impl Strategy<Value = Case> {
         1 => 1u32..=300,
     ];
     let status = prop_oneof![
-        5 => Just(StatusSel::Committed),
-        4 => Just(StatusSel::InProgress),
-        1 => Just(StatusSel::Planning),
+        10 => Just(StatusSel::Committed),
+        8 => Just(StatusSel::InProgress),
+        2 => Just(StatusSel::Planning),
         1 => Just(StatusSel::Complete),
         1 => Just(StatusSel::Failed),
         1 => Just(StatusSel::Superseded),
